@@ -39,6 +39,10 @@ ASSUMPTIONS = [
     "sNaN and NaN-with-payload forms of Decimal are outside the model (never generated for the modelled suite)",
     "xsd:float is judged with double precision (rdflib maps both float and double to Python float)",
     "float/double, date/time/duration, binary, XML literals: sampled against the oracle only, nothing proved",
+    "nothing is demanded about forms outside the lexical space of the datatype (flag, value): the property constrains "
+    "valid forms; accepted invalid forms are only counted in the evidence distribution (invalid_form_not_flagged_*, "
+    "overaccepted_not_judged_*); 'term equality implies eq' is not demanded of decimals built from invalid forms "
+    "(Decimal('NaN') != Decimal('NaN'))",
 ]
 RULE = ("cases are (datatype, lexical form, normalize flag), python values, or pairs of literals; forms are built from "
         "a sign, boundary magnitudes of the datatype, leading zeros, a point/exponent, and decorations (python white "
